@@ -125,6 +125,13 @@ def gen_cases(rng, tier):
         top = ("seq", b"(", tuple(fl + cx + [tuple(x) for x in fl[:6]] + [tuple(x) for x in cx[:4]]))
         for fp in (0.0, 0.5, 1.0):
             add(pm.header(ver) + pm.dumps(top, ver, rng, fp), ["float-patterns", "%d.%d" % ver, "flags%.1f" % fp], ver, top)
+    # objects larger than any plausible buffer
+    bigs = ("str", b"s", bytes((k * 7) % 256 for k in range(200001)))
+    bigu = ("str", b"u", b"\xc3\xa9" * 70001)
+    bigt = ("seq", b"(", tuple(("int", struct.pack("<i", k)) for k in range(8000)))
+    for ver in ((3, 8), (3, 12)):
+        top = ("seq", b"[", (bigs, bigu, bigt, bigs, ("seq", b"(", (bigu, bigt))))
+        add(pm.header(ver) + pm.dumps(top, ver, rng, 0.5), ["big-objects", "%d.%d" % ver], ver, top)
     # a flagged object of every kind ahead of shared objects: the numbering of all later references depends on its slot
     def leading(ver):
         ints = [struct.pack("<i", k) for k in range(300)]
